@@ -65,16 +65,28 @@ pub fn start_determining_calling_process_in_thread() {
         .name("find_calling_process".into())
         .spawn(move || {
             let calling_process = determine_calling_process();
+            #[cfg(dandavison_delta_verif)]
+            crate::verif::sync("b_compute", variant_name(&calling_process));
 
             let (caller_mutex, determine_done) = &**CALLER;
 
             let mut caller = caller_mutex.lock().unwrap();
+            #[cfg(dandavison_delta_verif)]
+            crate::verif::sync("b_lock", "");
 
             if CALLER_INFO_SOURCE.load(DELTA_ATOMIC_ORDERING) <= CALLER_GUESSED {
                 *caller = calling_process;
             }
+            #[cfg(dandavison_delta_verif)]
+            crate::verif::sync("b_cs", variant_name(&caller));
 
             determine_done.notify_all();
+            #[cfg(dandavison_delta_verif)]
+            {
+                crate::verif::sync("b_unlock", "");
+                drop(caller);
+                crate::verif::sync("b_released", "");
+            }
         })
         .unwrap();
 }
@@ -84,10 +96,36 @@ pub fn set_calling_process(args: &[String]) {
     if let ProcessArgs::Args(result) = describe_calling_process(args) {
         let (caller_mutex, determine_done) = &**CALLER;
 
+        #[cfg(dandavison_delta_verif)]
+        crate::verif::sync("m_enter", "");
         let mut caller = caller_mutex.lock().unwrap();
+        #[cfg(dandavison_delta_verif)]
+        crate::verif::sync("m_lock", "");
         *caller = result;
         CALLER_INFO_SOURCE.store(CALLER_KNOWN, DELTA_ATOMIC_ORDERING);
         determine_done.notify_all();
+        #[cfg(dandavison_delta_verif)]
+        {
+            crate::verif::sync("m_cs", variant_name(&caller));
+            crate::verif::sync("m_unlock", "");
+            drop(caller);
+            crate::verif::sync("m_released", "");
+        }
+    }
+}
+
+#[cfg(dandavison_delta_verif)]
+fn variant_name(p: &CallingProcess) -> &'static str {
+    match p {
+        CallingProcess::GitDiff(_) => "GitDiff",
+        CallingProcess::GitShow(_, _) => "GitShow",
+        CallingProcess::GitLog(_) => "GitLog",
+        CallingProcess::GitReflog(_) => "GitReflog",
+        CallingProcess::GitBlame(_) => "GitBlame",
+        CallingProcess::GitGrep(_) => "GitGrep",
+        CallingProcess::OtherGrep => "OtherGrep",
+        CallingProcess::None => "None",
+        CallingProcess::Pending => "Pending",
     }
 }
 
@@ -95,6 +133,19 @@ pub fn set_calling_process(args: &[String]) {
 pub fn calling_process() -> MutexGuard<'static, CallingProcess> {
     let (caller_mutex, determine_done) = &**CALLER;
 
+    #[cfg(dandavison_delta_verif)]
+    {
+        crate::verif::sync("q_enter", "");
+        let guard = determine_done
+            .wait_while(caller_mutex.lock().unwrap(), |caller| {
+                *caller == CallingProcess::Pending
+            })
+            .unwrap();
+        crate::verif::sync("q_ret", variant_name(&guard));
+        return guard;
+    }
+
+    #[cfg(not(dandavison_delta_verif))]
     determine_done
         .wait_while(caller_mutex.lock().unwrap(), |caller| {
             *caller == CallingProcess::Pending
